@@ -224,7 +224,11 @@ def case_uniform(fam, rep):
         n = tuple(int(x) for x in rng.integers(3, 6, F["dim"]))
         mesh = F["conv"](F["base"](n))
         ru, rg = gen.make_region(fam, mesh, uniform=True), gen.make_region(fam, mesh)
-        Fld = fem.Field if F["dim"] == 3 else fem.FieldPlaneStrain
+        axi = F["dim"] == 2 and rep % 2 == 1
+        Fld = fem.Field if F["dim"] == 3 else (fem.FieldAxisymmetric if axi else fem.FieldPlaneStrain)
+        if axi:
+            mesh = mesh.copy(points=mesh.points * rng.uniform(0.5, 2, 2) + np.array([0.0, float(rng.uniform(0, 2))]))
+            ru, rg = gen.make_region(fam, mesh, uniform=True), gen.make_region(fam, mesh)
         fu, fg = fem.FieldContainer([Fld(ru, dim=F["dim"])]), fem.FieldContainer([Fld(rg, dim=F["dim"])])
         vals = gen.random_displacement(rng, mesh, grad=0.2)
         fu[0].values[:] = vals
@@ -233,23 +237,25 @@ def case_uniform(fam, rep):
         su, sg = fem.SolidBody(um, fu), fem.SolidBody(copy.deepcopy(um), fg)
         vu, vg = su.assemble.vector(fu).toarray(), sg.assemble.vector(fg).toarray()
         Ku, Kg = su.assemble.matrix(fu).toarray(), sg.assemble.matrix(fg).toarray()
-        run.compare("reduced.uniform", "family=%s clause=vector" % fam, maxabs(vu - vg) / maxabs(vg), 1e-12,
-                    "uniform-grid region assembles another vector than the general region", unit="uniform:vector", config=(fam, "vector", n))
-        run.compare("reduced.uniform", "family=%s clause=matrix" % fam, maxabs(Ku - Kg) / maxabs(Kg), 1e-12,
-                    "uniform-grid region assembles another matrix than the general region", unit="uniform:matrix", config=(fam, "matrix", n))
+        run.compare("reduced.uniform", "family=%s%s clause=vector" % (fam, "[axisymmetric]" if axi else ""), maxabs(vu - vg) / maxabs(vg), 1e-12,
+                    "uniform-grid region assembles another vector than the general region", unit="uniform:vector" + (":axisymmetric" if axi else ""), config=(fam, "vector", n, axi))
+        run.compare("reduced.uniform", "family=%s%s clause=matrix" % (fam, "[axisymmetric]" if axi else ""), maxabs(Ku - Kg) / maxabs(Kg), 1e-12,
+                    "uniform-grid region assembles another matrix than the general region", unit="uniform:matrix" + (":axisymmetric" if axi else ""), config=(fam, "matrix", n, axi))
         if ru.dV.shape[-1] != 1:
             run.note("uniform=True region stores %s differential volumes" % (ru.dV.shape,))
         # cell-constant integrands: the integrated values keep a trailing axis of size one and are expanded at assembly
         le = fem.LinearElastic(E=float(rng.uniform(1, 3)), nu=float(rng.uniform(0.1, 0.4)))
         lu, lg = fem.SolidBody(le, fu), fem.SolidBody(copy.deepcopy(le), fg)
         rho = float(rng.uniform(0.5, 2))
-        bf = rng.uniform(-1, 1, F["dim"])
-        for what, a, b in (("linear-elastic-matrix", lu.assemble.matrix(fu), lg.assemble.matrix(fg)),
-                           ("linear-elastic-vector", lu.assemble.vector(fu), lg.assemble.vector(fg)),
-                           ("mass", lu.assemble.mass(rho), lg.assemble.mass(rho)),
-                           ("body-force", fem.SolidBodyForce(fu, values=bf).assemble.vector(), fem.SolidBodyForce(fg, values=bf).assemble.vector())):
-            a, b = a.toarray(), b.toarray()
-            run.compare("reduced.uniform", "family=%s clause=constant-integrand:%s" % (fam, what), maxabs(a - b) / maxabs(b), 1e-12,
+        bf = rng.uniform(-1, 1, 3 if axi else F["dim"])
+        todo = [("linear-elastic-matrix", lambda: (lu.assemble.matrix(fu), lg.assemble.matrix(fg))),
+                ("linear-elastic-vector", lambda: (lu.assemble.vector(fu), lg.assemble.vector(fg))),
+                ("body-force", lambda: (fem.SolidBodyForce(fu, values=bf).assemble.vector(), fem.SolidBodyForce(fg, values=bf).assemble.vector()))]
+        if not axi:  # the mass matrix of an axisymmetric body raises (loud, outside the property)
+            todo.append(("mass", lambda: (lu.assemble.mass(rho), lg.assemble.mass(rho))))
+        for what, both in todo:
+            a, b = (x.toarray() for x in both())
+            run.compare("reduced.uniform", "family=%s%s clause=constant-integrand:%s" % (fam, "[axisymmetric]" if axi else "", what), maxabs(a - b) / maxabs(b), 1e-12,
                         "uniform-grid region assembles another %s than the general region" % what, unit="uniform:constant:" + what,
                         config=(fam, what, n))
     return fn
@@ -281,7 +287,7 @@ SPEC = {
                        "planestrain:stiffness:quad8", "planestrain:stiffness:quad9", "axisymmetric:energy:quad", "axisymmetric:energy:quad8",
                        "axisymmetric:energy:triangle", "axisymmetric:revolve-convergence", "condensed:u:3d", "condensed:u:planestrain",
                        "condensed:u:axisymmetric", "condensed:p:3d", "condensed:J:3d", "condensed:bulk:1", "condensed:bulk:2", "condensed:bulk:3", "condensed:state:3d", "condensed:restart:3d", "condensed:restart:axisymmetric",
-                       "uniform:vector", "uniform:matrix", "uniform:constant:linear-elastic-matrix", "uniform:constant:mass", "uniform:constant:body-force"],
+                       "uniform:vector", "uniform:matrix", "uniform:vector:axisymmetric", "uniform:matrix:axisymmetric", "uniform:constant:linear-elastic-matrix", "uniform:constant:mass", "uniform:constant:body-force"],
     "rule": ("quad4/8/9 ~ hex8/20/27 pairs on undistorted / in-plane distorted / affine meshes with smooth random in-plane states and 4 "
              "materials; axisymmetric forces vs central differences of the oracle-side revolved strain energy on 5 families and vs 360-degree "
              "revolved 3D models with 8/16/32 sectors; condensed vs explicit three-field solutions for bulk 10..5000 in 3D / plane strain / "
